@@ -723,6 +723,12 @@ def _deserialized_experimental_value_info_for_function_ir9(
         function_id = (function_domain, function_name, function_overload)
         function = functions.get(function_id)
         if function is None:
+            # The format cannot express overloads: fall back to a function with this domain and name
+            function_id = next(
+                (id_ for id_ in functions if id_[:2] == function_id[:2]), function_id
+            )
+            function = functions.get(function_id)
+        if function is None:
             # Function not found
             logger.debug(
                 "Function with ID '%s' not found in model functions. Value info '%s' will be ignored.",
